@@ -101,6 +101,19 @@ class SymMode:
         a, b = SB.lift(a), SB.lift(b)
         return (a & b) | ((~a) & (~b))
 
+    def div_or(self, a, b, default):
+        """a / b where b != 0, `default` where b == 0 (no division obligation)."""
+        a, b = SV.lift(a), SV.lift(b)
+        if b.c is not None:
+            return a / b if b.c != 0 else default
+        return core.ite(b != 0, SV(t=a.zr() / b.zr()), default)
+
+    def count(self, flags):
+        r = SV.lift(0)
+        for f in flags:
+            r = r + SV.lift(SB.lift(f))
+        return r
+
     def sum_(self, xs):
         r = SV.lift(0)
         for x in xs:
@@ -310,6 +323,12 @@ class NativeMode:
 
     def iff(self, a, b):
         return bool(a) == bool(b)
+
+    def div_or(self, a, b, default):
+        return NV(float(a) / float(b)) if float(b) != 0 else default
+
+    def count(self, flags):
+        return sum(1 for f in flags if bool(f))
 
     def sum_(self, xs):
         return NV(sum(float(x) for x in xs))
